@@ -34,6 +34,10 @@ func init() {
 }
 
 func runC10(c *an.Ctx) {
+	sharedErrorsAs(c, "C10-R2", 1, "dnssvc/internal/ratelimitmw.")
+	if n := sharedLoopCompleteness(c, "C10-R5", "backendpb.", "access.", "dnssvc/internal/ratelimitmw."); n > 0 {
+		c.Ok("C10-R5", "element-wise loops", token.NoPos, "%d range loops of the access-list conversion and matching code examined: no element ends a scan early", n)
+	}
 	c.Floor("C10-R1", 5)
 	c.Floor("C10-R2", 1)
 
